@@ -91,4 +91,16 @@ PROPS = {
                 "Non-trivial: a history with >=1 due Trim that sees both a stale and a fresh entry file and >=1 lookup before it. Distinct by operation list.",
         "assumptions": ["file use is modelled per file: Get refreshes the index file only, GetBytes/GetFile/OutputFile also the data file, Put both", "foreign files are never named *-a or *-d (those names are cache entries by definition)"],
     },
+    "C15": {
+        "pkg": "c15_extract",
+        "level": "exploration",
+        "technique": "rapid property tests: hostile entry names against a pre-populated sandbox with before/after snapshot oracle; generated directory trees through the real txtar-c and txtar-x binaries with a round-trip oracle derived from the documented archiving rules",
+        "level_text": "(1) archives whose names mix '.', '..', empty, absolute, backslash and colliding segments are written into sandbox/target; a snapshot of the whole sandbox before/after decides containment, no-overwrite, error reporting and exact contents. (2) generated trees (nested, dot files/dirs, missing final newline, empty, marker look-alikes, invalid UTF-8, spaces, symlinks) go through the txtar-c and txtar-x binaries built from the working tree; the extracted set must equal what the documented rules archive, with Unquote restoring quoted files.",
+        "level_note": "Trusted: the snapshot walker; the documented archiving rules restated in the oracle (dot components skipped unless -a, invalid UTF-8 skipped, final newline added, marker-bearing files skipped unless -quote). Pre-existing symlinks inside the target and names with leading/trailing blanks or newlines are outside the quantifier and not generated.",
+        "shards": {"quick": 4, "thorough": 16},
+        "bins": {"txtar-c": ["$REPO", "./cmd/txtar-c"], "txtar-x": ["$REPO", "./cmd/txtar-x"]},
+        "rule": "write: 1-5 entries with names of 1-4 segments from {a,b,.,..,'',c d,x\\y,target,targetx,sibling.txt,..a,a..,...,NUL} optionally with leading or trailing '/', against 0-3 pre-existing files and 0-2 directories in the target and sibling files outside it. roundtrip: 0-8 files at top level or in one of 8 directories (incl. dot dirs) with one of 14 bodies, optional empty dir, optional symlink, flags in {none,-quote,-a,-a -quote}, archive passed by name or stdin. "
+                "Non-trivial: write case with an escaping or colliding name; tree with a nested file and a file that is skipped, newline-fixed or quoted. Distinct by case.",
+        "assumptions": ["the sandbox runs as root: permission denials are never part of an expected outcome"],
+    },
 }
